@@ -5,3 +5,4 @@ import SmtpV.Props.C20
 #print axioms SmtpV.Props.C20.never_blocked_step
 #print axioms SmtpV.Props.C20.pinned_tree_counterexample
 #print axioms SmtpV.Props.C20.pinned_tree_leak
+#print axioms SmtpV.Props.C20.C20_close_ends_everything
